@@ -4,6 +4,7 @@ package main
 
 import (
 	"fmt"
+	"strings"
 	"go/constant"
 	"go/token"
 	"go/types"
@@ -92,8 +93,10 @@ func (tr *FnTr) loadFrom(m, alloc, obj, off *Term, T types.Type, base string, as
 		tr.unsupported("load of %d-cell value %s", lay.N(), T)
 	}
 	v := Val{T: T, L: make([]*Term, lay.N())}
+	var cellTerms []*Term
 	for i, lf := range lay.Leaves {
 		c := readCell(m, obj, Add(off, Int(int64(i))), leafTag(lf))
+		cellTerms = append(cellTerms, c)
 		nm := base
 		if lay.N() > 1 {
 			nm = fmt.Sprintf("%s_%d", base, i)
@@ -101,6 +104,19 @@ func (tr *FnTr) loadFrom(m, alloc, obj, off *Term, T types.Type, base string, as
 		v.L[i] = tr.vc.Def(nm, leafOfCell(lf, c))
 	}
 	if assume {
+		// a reference that was already in an older memory version is older than everything
+		// allocated since
+		for i, lf := range lay.Leaves {
+			if lf.K == LObj && !lf.Str && v.L[i].IntConst() == nil {
+				if e, ok := boundFromCell(cellTerms[i]); ok && e < curEpoch {
+					if _, isAlloc := allocEpoch[v.L[i].Key()]; !isAlloc {
+						if old, has := objBound[v.L[i].Key()]; !has || e < old {
+							objBound[v.L[i].Key()] = e
+						}
+					}
+				}
+			}
+		}
 		tr.assumeTyped(v, alloc)
 	}
 	return v
@@ -129,6 +145,11 @@ func (tr *FnTr) store(obj, off *Term, v Val) {
 // newObject allocates a zeroed object and returns its id.
 func (tr *FnTr) newObject(base string) *Term {
 	obj := tr.vc.Def(base+"_obj", tr.st.Alloc)
+	if obj.IntConst() == nil {
+		allocEpoch[obj.Key()] = curEpoch
+		delete(objBound, obj.Key())
+	}
+	curEpoch++
 	tr.st.Alloc = tr.vc.Def("alloc", Add(tr.st.Alloc, Int(1)))
 	tr.st.Mem = tr.vc.Def("mem", Store(tr.st.Mem, obj, zeroArr))
 	return obj
@@ -150,6 +171,9 @@ func (tr *FnTr) instr(in ssa.Instruction) {
 			tr.top.privObjs = append(tr.top.privObjs, obj)
 		}
 		tr.env[x] = Val{T: x.Type(), L: []*Term{obj, Int(0)}}
+		if strings.HasSuffix(x.Type().String(), "*bytes.Buffer") {
+			tr.ghostNew(obj, Int(algBuffer))
+		}
 	case *ssa.UnOp:
 		tr.unop(x)
 	case *ssa.BinOp:
@@ -189,7 +213,12 @@ func (tr *FnTr) instr(in ssa.Instruction) {
 		v := tr.val(x.X)
 		tr.env[x] = Val{T: x.Type(), L: v.L}
 	case *ssa.MakeInterface:
-		// an interface value holding a concrete value is non-nil; its identity is opaque
+		// an interface value holding a concrete value is non-nil; its identity is opaque,
+		// except for pointers, whose object id is kept (ghost buffers are keyed by it)
+		if _, isPtr := x.X.Type().Underlying().(*types.Pointer); isPtr {
+			tr.env[x] = Val{T: x.Type(), L: []*Term{tr.val(x.X).L[0]}}
+			return
+		}
 		t := tr.vc.Fresh(tr.vname(x), SInt)
 		tr.vc.Assume(Lt(Int(0), t))
 		tr.env[x] = Val{T: x.Type(), L: []*Term{t}}
